@@ -10,6 +10,10 @@ Theorem C19_rejected_before_create :
 Proof. exact rejected_before_create. Qed.
 Print Assumptions C19_rejected_before_create.
 
+Theorem C19_reject_dt_nonpositive : forall o, v_dt_init o <= 0 -> validate_ok o = false.
+Proof. exact reject_dt_nonpositive. Qed.
+Theorem C19_reject_save_every : forall o, v_save_every o < 1 -> validate_ok o = false.
+Proof. exact reject_save_every. Qed.
 Theorem C19_reject_dt : forall o, v_dt_max o < v_dt_init o -> validate_ok o = false.
 Proof. exact reject_dt. Qed.
 Theorem C19_reject_terminal_psi : forall o p, v_terminal_psi o = Some p -> 1 < Qabs p -> validate_ok o = false.
@@ -24,7 +28,8 @@ Theorem C19_reject_tol : forall o, v_tol o <= 0 -> validate_ok o = false.
 Proof. exact reject_tol. Qed.
 (* no false rejections of consistent options *)
 Theorem C19_validate_accepts :
-  forall o, v_dt_init o <= v_dt_max o -> (forall p, v_terminal_psi o = Some p -> Qabs p <= 1) ->
+  forall o, 0 < v_dt_init o -> 1 <= v_save_every o ->
+    v_dt_init o <= v_dt_max o -> (forall p, v_terminal_psi o = Some p -> Qabs p <= 1) ->
     0 < v_mult o -> v_mult o < 1 -> 0 < v_drag o -> v_drag o <= 1 -> 0 < v_size o -> 0 < v_tol o ->
     validate_ok o = true.
 Proof. exact validate_accepts. Qed.
@@ -60,6 +65,16 @@ Theorem C19_td_sampled_imbalance_rejected :
     accepts_td f (sample_times repaired solve skip us) = false.
 Proof. exact td_sampled_imbalance_rejected. Qed.
 Print Assumptions C19_td_sampled_imbalance_rejected.
+
+Theorem C19_td_start_imbalance_rejected :
+  forall f solve skip us, accepts_currents (f 0) = false -> accepts_td f (sample_times true solve skip us) = false.
+Proof. exact td_start_imbalance_rejected. Qed.
+Print Assumptions C19_td_start_imbalance_rejected.
+
+Theorem C19_td_end_imbalance_rejected :
+  forall f solve skip us, accepts_currents (f (sample_tmax true solve skip)) = false -> accepts_td f (sample_times true solve skip us) = false.
+Proof. exact td_end_imbalance_rejected. Qed.
+Print Assumptions C19_td_end_imbalance_rejected.
 
 (* as found, a time used by the thermalisation stage was outside the sampled range *)
 Theorem C19_sampled_range_as_found_refuted :
